@@ -1,14 +1,13 @@
 """C42 - IP-address ACLs match exactly the configured address sets (DESIGN 6.4).
 Design step: TLC checks I => P on IpAcl.tla + AclSplay.tla (FactoryParse/DecodeMask, firstAddress/lastAddress, the
 SplayInserter<acl_ip_data*> Compare/IsSubset/MakeCombinedValue, the Merge loop, aclIpAddrNetworkCompare, Ip::Address
-relational operators) for every ordered list over small address blocks, in every tree shape; on the boundary blocks
-(::, 0.0.0.0, 255.255.255.255, ffff:..:ffff, ::/0) TLC enumerates the lists on which the code-shaped model leaves the
-reference (design errors, reported in evidence).  Binding (T3): the real ACLIP::parse (through ConfigParser on an in-memory
+relational operators) for every ordered list over small address blocks, in every tree shape, including the boundary blocks
+(::, 0.0.0.0, 255.255.255.255, ffff:..:ffff, ::/0) on which TLC found two design errors of the code (a /0 mask turned into a
+host mask; Ip::Address operators special-casing any/no-address operands), repaired in 01d1a63 and 251cbd8.  Binding (T3): the real ACLIP::parse (through ConfigParser on an in-memory
 line) and ACLIP::match are run on the same universes generated identically here, plus seeded random big lists; TLC
 evaluates IpAcl!AnswerOk on every (list, address, answer)."""
 import ipaddress
 import itertools
-import json
 import os
 import random
 import re
@@ -152,14 +151,14 @@ def gen(ctx):
         add([v], pp, 'plain')
     pairs = list(itertools.product(pv, repeat=2))
     if not ctx.thorough:
-        pairs = [pr for pr in pairs if rnd.random() < (0.08 if pr[0]['fam'] != pr[1]['fam'] else 0.13)]
+        pairs = [pr for pr in pairs if rnd.random() < (0.05 if pr[0]['fam'] != pr[1]['fam'] else 0.09)]
     for combo in pairs:
         add(list(combo), pp, 'plain')
     for base, fam in ((PLAIN4, 4), (PLAIN6, 6)):
         tv = block_values(base, 2, fam)
         tp = block_probes(base, 2) + [PLAIN6 if fam == 4 else PLAIN4]
         for combo in itertools.product(tv, repeat=3):
-            if ctx.thorough or rnd.random() < 0.05:
+            if ctx.thorough or rnd.random() < 0.04:
                 add(list(combo), tp, 'plain')
     # the family keywords with and without ordinary values
     for g in ('all', 'ipv4', 'ipv6'):
@@ -227,7 +226,7 @@ def gen(ctx):
         if lo > (V4BASE + 5 if fam == 4 else 5) and fam_of(lo - 3) == fam:
             return val('range', lo - 3, lo + (hi - lo) // 3)                                       # partial overlap to the left
         return dict(v)
-    for _ in range(80 if ctx.thorough else 12):
+    for _ in range(80 if ctx.thorough else 8):
         n = rnd.choice([8, 50, 50, 100] if ctx.thorough else [8, 30, 50])
         vals, probes = [], set()
         for _ in range(n):
@@ -264,49 +263,18 @@ def classify(case, j, got):
     return {'kind': 'any-or-noaddr-special-cased-in-address-order' if special else 'plain', 'answer': 'uncovered-address-matched'}
 
 
-def design_errors(ctx):
-    """TLC on the boundary universe: collect the (list, probes) on which the code-shaped I-layer leaves the reference"""
-    res = A.mc(ctx, 'MC_IpAcl.tla', 'MC_IpAcl_boundary.cfg', timeout=1500)
-    found = []
-    for line in res.out.splitlines():
-        m = re.match(r'<<"DESIGN", "(.*)">>\s*$', line)
-        if m:
-            found.append(json.loads(m.group(1).encode().decode('unicode_escape')))
-    return found
-
-
-def from_limbs(l):
-    x = 0
-    for w in l:
-        x = (x << 16) | w
-    return x
-
-
 def run(ctx):
-    # quick: ordered pairs over both families (4-address blocks), ordered triples over the v4 block; thorough adds pairs over
-    # 8-address blocks and triples over the v6 block (MC_IpAcl_deep.cfg, triples over the 8-address v4 block, is kept for manual
+    # quick: ordered triples over the 4-address v4 block (+ the boundary universe below, which mixes both families); thorough adds
+    # ordered pairs over both families (4- and 8-address blocks) and triples over the v6 block (MC_IpAcl_deep.cfg, triples over the 8-address v4 block, is kept for manual
     # runs: ~1 CPU-hour)
-    A.mc(ctx, 'MC_IpAcl.tla', 'MC_IpAcl_pairs2.cfg', timeout=3000)
     A.mc(ctx, 'MC_IpAcl.tla', 'MC_IpAcl_triples4.cfg', timeout=3000)
     if ctx.thorough:
+        A.mc(ctx, 'MC_IpAcl.tla', 'MC_IpAcl_pairs2.cfg', timeout=3000)
         A.mc(ctx, 'MC_IpAcl.tla', 'MC_IpAcl.cfg', timeout=3000)
         A.mc(ctx, 'MC_IpAcl.tla', 'MC_IpAcl_triples6.cfg', timeout=3000)
-    derr = design_errors(ctx)
-    kinds = {}
-    for d in derr:
-        vals = [{'k': v['k'], 'fam': v['fam'], 'a': from_limbs(v['a']), 'b': from_limbs(v['b']), 'len': v['len']} for v in d['list']]
-        for pl in d['probes']:
-            p = from_limbs(pl)
-            c = {'vals': vals, 'probes': [p]}
-            ref = any(covers(v, p) for v in vals)
-            kd = classify(c, 0, not ref)['kind']      # the model's answer differs from the reference in some tree shape
-            kinds.setdefault(kd, []).append({'list': [vtext(v) for v in vals], 'address': atext(p), 'reference': ref, 'tree_ordered': d['ordered']})
-    ctx.cov['design_errors_found_by_tlc'] = {k: len(v) for k, v in kinds.items()}
-    ctx.cov['design_error_witnesses'] = {k: v[:3] for k, v in kinds.items()}
-    ctx.log('design step: plain universes I => P; boundary universe: %d lists leave the reference %s' % (len(derr), ctx.cov['design_errors_found_by_tlc']))
-    if derr:
-        ctx.notes.append('DESIGN ERROR (TLC, MC_IpAcl_boundary): with the values ::/0, 0.0.0.0, 255.255.255.255, :: or ffff:..:ffff the code-shaped model '
-                         'does not implement the reference: ' + json.dumps(ctx.cov['design_error_witnesses'])[:1500])
+    # boundary universe: 2-address blocks at ::, 0.0.0.0, 255.255.255.254, ffff:..:fffe and ::/0, ordered lists of <= 2
+    A.mc(ctx, 'MC_IpAcl.tla', 'MC_IpAcl_boundary.cfg', timeout=1500)
+    ctx.log('design step: I => P on the plain and the boundary universes')
     exe = A.build_driver(ctx)
     cases, nplain, nbound = gen(ctx)
     ctx.log('driver built; %d lists (%d plain small-universe, %d boundary)' % (len(cases), nplain, nbound))
@@ -320,7 +288,7 @@ def run(ctx):
             raise vlib.MachineryError('driver echo differs from what was sent: %r' % (c['toks'][:5],))
         tcases.append({'vals': [tlc_val(v) for v in c['vals']], 'text': c['toks'], 'seen': o['seen'], 'out': o['out'], 'ub': o['ub']})
     prej, irej = ucheck.conformance(ctx, os.path.join(A.SPEC, 'Conf_IpAcl.tla'), os.path.join(A.SPEC, 'Conf_IpAcl.cfg'), tcases, 'ip',
-                                    chunk=4000 if ctx.thorough else 1000, timeout=3000)
+                                    chunk=4000 if ctx.thorough else 800, timeout=3000)
     pairs = sum(len(o['out']) for o in outs)
     ctx.log('TLC evaluated %d lists / %d (list, address) pairs: P-rejected lists %d, I-rejected %d' % (len(outs), pairs, len(prej), len(irej)))
     # group the rejections by witness class; report the unexplained ('plain') ones first, at most two per class
@@ -371,8 +339,8 @@ def run(ctx):
                        '2-address blocks at ::, 0.0.0.0, 255.255.255.254, ffff:..:fffe and ::/0, every ordered list of <= 2. Random: seeded lists of 8..%d '
                        'values (v4 /8../32, v6 /32../128, dotted netmask spelling in a third of the lists) with planted duplicates, nested, adjacent, partially '
                        'overlapping and enclosing relatives, probed at every set edge +-1 and at random addresses of both families. A case (= list) is distinct by '
-                       'its token list; evaluations = (list, address) pairs.' % ('all' if ctx.thorough else 'a seeded tenth of the',
-                                                                                  'all' if ctx.thorough else 'a seeded twentieth of the', 100 if ctx.thorough else 50))
+                       'its token list; evaluations = (list, address) pairs.' % ('all' if ctx.thorough else 'a seeded fifteenth of the',
+                                                                                  'all' if ctx.thorough else 'a seeded twenty-fifth of the', 100 if ctx.thorough else 50))
     ctx.assumptions += ['the legacy spellings 0/0, 0.0.0.0/0, 0.0.0.0/0.0.0.0, 0.0.0.0-255.255.255.255, 0.0.0.0-0.0.0.0/0 (documented aliases of "all") and host names are not configured',
                         'an IPv4 probe inside an IPv6 network that contains its IPv4-mapped form (only ::/0 here) may be answered either way (IpAcl!AnswerOk)',
                         'Ip::EnableIpv6 is set as on a dual-stack host; the driver reports the 16 address bytes of every probe as ACLIP::match received it and TLC decides on those',
